@@ -232,6 +232,8 @@ package bytesconv
 //@   alias dst
 //@   modifies spare(dst), qx, qpos, qn, qfs
 //@   allocates
+//@   replay-import strconv
+//@   replay-go for c := 0; c < 256; c++ { for _, pre := range []string{"", "a", "%", "*"} { x := append([]byte(pre), byte(c)); e := AppendQuotedPath(nil, x); var back []byte; for p := 0; p < len(e); { if e[p] == '%' && p+2 < len(e) { v, err := strconv.ParseUint(string(e[p+1:p+3]), 16, 8); if err != nil || strings.ToUpper(string(e[p+1:p+3])) != string(e[p+1:p+3]) { fmt.Printf("VCGO-VIOLATED AppendQuotedPath(%q) = %q: bad escape at %d\n", x, e, p); return }; back = append(back, byte(v)); p += 3 } else { back = append(back, e[p]); p++ } }; if !bytes.Equal(back, x) { fmt.Printf("VCGO-VIOLATED AppendQuotedPath(%q) = %q, which reads back as %q\n", x, e, back); return } } }
 //@   ghostset-at-entry qn = len(src)
 //@   ghostset-at-entry qfs = len(src)
 //@   ghostset-at-entry qx = bytesOf(src)
